@@ -94,7 +94,10 @@ def main(ck):
             if why:
                 ops = c.get('ops', [])
                 shape = 'nested' if (not c.get('flat') and c.get('depth', 0) >= 2) else 'flat'
-                ck.violation('nonconforming-result:%s:%s:%s' % (shape, why.split(' ')[0].rstrip(':'), ops[-1] if ops else '?'),
+                key = 'nonconforming-result:%s:%s:%s' % (shape, why.split(' ')[0].rstrip(':'), ops[-1] if ops else '?')
+                if shape == 'nested' and (why.startswith('data columns') or why.startswith('components')):
+                    key = 'nested-expression:result-columns-differ-from-components'
+                ck.violation(key,
                              {'script': c['vtl'], 'structures': G.structures(c['env']), 'result': n, 'why': why,
                               'data': {k2: [[str(x) if x is not None else None for x in r] for r in d['rows']] for k2, d in c['env'].items()}},
                              'result %s of %s does not conform: %s' % (n, c['vtl'][:140], why))
